@@ -485,14 +485,83 @@ func c07Targets() []func() interface{} {
 		func() interface{} { return &struct{ a int }{} },
 		func() interface{} { return new(int) },
 		func() interface{} { return new(string) },
+		// collections passed by value
+		func() interface{} { var m map[string]interface{}; return m },
+		func() interface{} { return map[string]interface{}{} },
+		func() interface{} { var m map[string]int; return m },
+		func() interface{} { var l []interface{}; return l },
+		func() interface{} { return []interface{}{1} },
+		func() interface{} { return [1]int{} },
 		func() interface{} {
 			return reflect.New(reflect.StructOf([]reflect.StructField{{Name: "A", Type: reflect.TypeOf(0), Tag: `config:"a.b.c"`}})).Interface()
 		},
 	}
 }
 
+// c07GenTargets: a field F of every carrier type (T, *T, **T, interface{} holding T, interface{}
+// holding *T) over every kind of held value (lists, arrays, maps, struct, primitive), nil or
+// pre-filled, as a named field that the configurations set, as an inlined field and as a named
+// field they do not set.
+func c07GenTargets() []func() interface{} {
+	held := []func() reflect.Value{
+		func() reflect.Value { return reflect.ValueOf([]int{9}) },
+		func() reflect.Value { return reflect.ValueOf([1]int{9}) },
+		func() reflect.Value { return reflect.ValueOf([2]int{9, 9}) },
+		func() reflect.Value { return reflect.ValueOf(map[string]int{"b": 1}) },
+		func() reflect.Value { return reflect.ValueOf(map[string]interface{}{"b": 1}) },
+		func() reflect.Value { return reflect.ValueOf(struct{ A int }{7}) },
+		func() reflect.Value { return reflect.ValueOf(7) },
+		func() reflect.Value { return reflect.ValueOf([]interface{}{9}) },
+	}
+	tags := []string{`config:"a"`, `config:",inline"`, `config:"zz"`}
+	var out []func() interface{}
+	for hi := range held {
+		for carrier := 0; carrier < 5; carrier++ {
+			for filled := 0; filled < 2; filled++ {
+				for _, tag := range tags {
+					hi, carrier, filled, tag := hi, carrier, filled, tag
+					out = append(out, func() interface{} {
+						hv := held[hi]()
+						T := hv.Type()
+						ptrTo := func(v reflect.Value) reflect.Value {
+							p := reflect.New(v.Type())
+							p.Elem().Set(v)
+							return p
+						}
+						var ft reflect.Type
+						switch carrier {
+						case 0:
+							ft = T
+						case 1:
+							ft = reflect.PtrTo(T)
+						case 2:
+							ft = reflect.PtrTo(reflect.PtrTo(T))
+						default:
+							ft = reflect.TypeOf((*interface{})(nil)).Elem()
+						}
+						st := reflect.New(reflect.StructOf([]reflect.StructField{{Name: "F", Type: ft, Tag: reflect.StructTag(tag)}}))
+						if filled == 1 {
+							f := st.Elem().Field(0)
+							switch carrier {
+							case 0, 3:
+								f.Set(hv)
+							case 1, 4:
+								f.Set(ptrTo(hv))
+							case 2:
+								f.Set(ptrTo(ptrTo(hv)))
+							}
+						}
+						return st.Interface()
+					})
+				}
+			}
+		}
+	}
+	return out
+}
+
 func c07Unpack() *core.Space {
-	targets := c07Targets()
+	targets := append(c07Targets(), c07GenTargets()...)
 	cfgs := []func() (*ucfg.Config, []ucfg.Option){
 		func() (*ucfg.Config, []ucfg.Option) { return mustCfg(M{"a": M{"b": 1, "x": "s"}, "x": M{"a": 1}}), nil },
 		func() (*ucfg.Config, []ucfg.Option) { return mustCfg(M{"a": L{1, 2}, "x": L{M{"a": 1}}}), nil },
